@@ -30,8 +30,8 @@ ASSUMPTIONS = [
     "streams containing a checksum-valid frame whose payload is malformed for its type are set aside (the driver raises deliberately)",
     "transmit confirmations are compared by frame id only (the decoded message is used for logging)",
 ]
-BOUNDS = {"quick": "LUBA: depth 2 over the full alphabet (~300 tokens), depth 3 over 24 tokens; SCI: depth 2 over 60 groups, depth 3 over 12",
-          "thorough": "LUBA: depth 3 over 60 tokens, depth 4 over 14; SCI: depth 3 over 60, depth 4 over 12"}
+BOUNDS = {"quick": "LUBA: depth 2 over the full alphabet (~300 tokens), depth 3 over 24 tokens; SCI: depth 2 over 60 groups, depth 3 over 12; consumer-queue lifecycles: all sequences over {new, drop-oldest, drop-newest, feed} to depth 6 per receiver",
+          "thorough": "LUBA: depth 3 over 60 tokens, depth 4 over 14; SCI: depth 3 over 60, depth 4 over 12; consumer-queue lifecycles to depth 8"}
 
 
 def lf(cmd, payload):
